@@ -51,7 +51,9 @@ NP_OF = {
     'C13': [('MdCompareApi', ['compare_discretization_symmetric', 'compare_discretization_directed', 'compare_discretization_api_symmetric',
                               'compare_discretization_api_directed', 'compare_discretization_api_other'])],
     'C07': [('MsmCummat', ['_get_cummat']), ('MsmMcmcApi', ['propagate_MCMC']), ('UtilsDatasets', ['propagate_tmat_start', 'propagate_tmat_random'])],
-    'C08': [('MsmCummat', ['_get_cummat']), ('MsmTimes', ['estimate_times_list', 'estimate_times_hist']), ('StateTrajBase', ['state_to_idx'])],
+    'C08': [('MsmCummat', ['_get_cummat']), ('MsmTimes', ['estimate_times_list', 'estimate_times_hist']), ('StateTrajBase', ['state_to_idx']),
+            ('MsmTimesApi', ['estimate_waiting_times_list', 'estimate_waiting_times_hist', 'estimate_transition_times_list', 'estimate_transition_times_hist',
+                             'estimate_paths'])],
     'C10': [('MsmLinalg', ['eigenvectors_n', 'eigenvectors_all', 'eigenvalues_n', 'eigenvalues_all', 'left_eigenvectors_n', 'left_eigenvectors_all',
                            'right_eigenvectors_n', 'right_eigenvectors_all', 'left_eigenvalues_n', 'left_eigenvalues_all', 'right_eigenvalues_n',
                            'right_eigenvalues_all']),
@@ -66,7 +68,7 @@ SOURCE_OF = {'MsmMsm': 'msm/msm.py', 'MdCorrections': 'md/corrections.py', 'MdTi
              'StateTrajHS': 'statetraj.py', 'MsmCummat': 'msm/timescales.py', 'MsmTimes': 'msm/timescales.py', 'StateTrajBase': 'statetraj.py',
              'UtilsRelabel': 'utils/_utils.py', 'StateTrajInit': 'statetraj.py', 'StateTrajAcc': 'statetraj.py', 'LumpedAcc': 'statetraj.py', 'StateTrajEst': 'statetraj.py', 'LumpedEst': 'statetraj.py', 'MsmEstimate': 'msm/msm.py', 'MsmMcmcApi': 'msm/timescales.py', 'UtilsFiltering': 'utils/filtering.py', 'IoLimits': 'io.py',
              'UtilsDatasets': 'utils/datasets.py', 'MsmCkApi': 'msm/tests.py', 'MdCompareApi': 'md/comparison.py', 'MdTimesApi': 'md/timescales.py', 'MdCoringApi': 'md/corrections.py',
-             'MsmLinalg': 'msm/utils/linalg.py', 'MsmIts': 'msm/timescales.py', 'UtilsSwap': 'utils/_utils.py', 'IoOpen': 'io.py'}
+             'MsmLinalg': 'msm/utils/linalg.py', 'MsmIts': 'msm/timescales.py', 'UtilsSwap': 'utils/_utils.py', 'IoOpen': 'io.py', 'MsmTimesApi': 'msm/timescales.py'}
 ATOL = 1e-8
 G = 1 << 53
 
@@ -252,7 +254,7 @@ def gen_cases(module, kernel, rng, n):
             lags = [rng.randint(1, 4) for _ in range(rng.randint(1, 3))]
             if rng.random() < 0.08:
                 lags[rng.randrange(len(lags))] = rng.choice([0, -1])
-            nts = (rng.randint(1, max(1, ns_ - 1)) if rng.random() < 0.85 else rng.choice([0, ns_])) if kernel == 'implied_timescales_n' else None
+            nts = (rng.randint(1, max(1, ns_ - 1)) if rng.random() < 0.85 else rng.choice([0, ns_, -1])) if kernel == 'implied_timescales_n' else None
             yield {'k': kernel, 'args': None, 'trajs': [t], 'lags': lags, 'nts': nts, 'reversible': rng.random() < 0.05, 'mode': 'py'}
         elif module == 'MsmCkApi':
             ns_ = rng.randint(2, 3)
@@ -457,7 +459,7 @@ def gen_cases(module, kernel, rng, n):
         elif module == 'StateTrajBase':
             labs = sorted(rng.sample(range(-6, 30), rng.randint(1, 6)))
             yield {'k': kernel, 'args': [labs, rng.choice(labs + [rng.randint(-8, 32)])], 'mode': 'py'}
-        elif module == 'MsmTimes':
+        elif module in ('MsmTimes', 'MsmTimesApi'):
             labs = sorted(rng.sample(range(-6, 30), rng.randint(2, 6)))
             pool = list(labs)
             rng.shuffle(pool)
@@ -473,7 +475,12 @@ def gen_cases(module, kernel, rng, n):
             rng.shuffle(S)
             keys = rng.sample(range(1, 40), rng.randint(0, 6)) if rng.random() < 0.9 else []
             d = [[k_, rng.randint(1, 5)] for k_ in keys]
-            yield {'k': kernel, 'args': [labs, rng.choice([1, 2, 3, 10]), S, F, rng.randint(1, 500), False], 'dict': d, 'mode': 'py'}
+            c_ = {'k': kernel, 'args': [labs, rng.choice([1, 2, 3, 10]), S, F, rng.randint(1, 500), False], 'dict': d, 'mode': 'py'}
+            if module == 'MsmTimesApi':
+                c_['dict_tt'] = [[k_ + 1, v_ + 1] for k_, v_ in d] + [[77, 1]]          # what the OTHER kernel would answer
+                c_['chain'] = [rng.randrange(len(labs)) for _ in range(rng.randint(1, 12))]          # the kernel answers an INDEX chain
+                c_['paths'] = [[[S[0], F[0]], [rng.randint(1, 9) for _ in range(rng.randint(1, 3))]]] if rng.random() < 0.8 else []
+            yield c_
         elif module == 'MsmCummat':
             import numpy as np
             n = rng.randint(1, 6)
@@ -932,6 +939,59 @@ def real_one(module, case):
         case = dict(case, _run=_run)
         inputs = {'args': [labs, lag, S, F, steps, bool(numba.config.DISABLE_JIT)], '_rec2': rec}
         fn = None
+    elif module == 'MsmTimesApi':
+        # the public wrappers with stub kernels: each kernel answers its own dictionary, so a wrapper that hands over the wrong one is seen
+        import msmhelper as mh
+        labs, lag, S, F, steps, _flag = case['args']
+        rec = {}
+        dummy = (np.array([[1.0]]), np.array([[0]], dtype=np.int64))
+
+        def mk(key, dct):
+            def stub(cummat, start, states_from, states_to, steps):
+                rec[key] = [[int(k_), int(v_)] for k_, v_ in dct]
+                return {int(k_): int(v_) for k_, v_ in dct}
+            return stub
+
+        def _run():
+            saved = (mod._get_cummat, np.random.choice, mod._estimate_waiting_times, mod._estimate_transition_times, mod._propagate_MCMC, mod.md_estimate_paths)
+
+            def choice(xs):
+                rec['choice'] = int(xs[0] if len(xs) else 0)
+                return xs[0]
+
+            def gc(trajs, lagtime):
+                rec['cummat'] = [[['1']], [[0]]]
+                return dummy
+
+            def prop(cummat, start, steps):
+                rec['propagate'] = [int(v) for v in case['chain']]
+                return np.array(case['chain'], dtype=np.int64)
+
+            def mdp(trajs, start, final):
+                rec['md_paths'] = case['paths']
+                rec['md_paths_args'] = [[int(v) for v in np.asarray(trajs).ravel()], [int(v) for v in np.atleast_1d(start)], [int(v) for v in np.atleast_1d(final)]]
+                return {tuple(p_): np.array(t_) for p_, t_ in case['paths']}
+            mod._get_cummat, np.random.choice = gc, choice
+            mod._estimate_waiting_times, mod._estimate_transition_times = mk('estimator', case['dict']), mk('estimator_tt', case['dict_tt'])
+            mod._propagate_MCMC, mod.md_estimate_paths = prop, mdp
+            try:
+                obj = mh.StateTraj([np.array(labs, dtype=np.int64)])
+                if case['k'] == 'estimate_paths':
+                    r = mod.estimate_paths(trajs=obj, lagtime=lag, start=S, final=F, steps=steps)
+                    # the chain handed to the md function is the label chain (states[index chain])
+                    if rec.get('md_paths_args') and rec['md_paths_args'][1:] != [[int(v) for v in S], [int(v) for v in F]]:
+                        raise core.HarnessError('estimate_paths passed other start/final states on')
+                    return [[[int(x) for x in p_], [int(x) for x in t_]] for p_, t_ in r.items()]
+                f_ = getattr(mod, case['k'].rsplit('_', 1)[0])
+                r = f_(trajs=obj, lagtime=lag, start=S, final=F, steps=steps, return_list=case['k'].endswith('_list'))
+            finally:
+                (mod._get_cummat, np.random.choice, mod._estimate_waiting_times, mod._estimate_transition_times, mod._propagate_MCMC, mod.md_estimate_paths) = saved
+            if case['k'].endswith('_list'):
+                return [int(x) for x in r]
+            return [[core.rat_str(float(v)) for v in r[0]], [int(v) for v in r[1]]]
+        case = dict(case, _run=_run)
+        inputs = {'args': [labs, lag, S, F, steps] + ([] if case['k'] == 'estimate_paths' else [bool(numba.config.DISABLE_JIT)]), '_rec4': rec}
+        fn = None
     elif module == 'MsmNorm' and case['k'] == 'equilibrium_population':
         # the eigen-solver is an oracle of the translated function: record what it returned in the real run
         mat = np.array(case['floats'], dtype=np.float64)
@@ -1102,7 +1162,7 @@ def real_one(module, case):
                 return [int(v) for v in mod.propagate_MCMC(mh.StateTraj([np.array(a[0], dtype=np.int64)]), a[1], a[2], start=a[3])]
             finally:
                 mod._get_cummat, mod._propagate_MCMC, np.random.choice = o_cm, o_pr, o_ch
-        if module in ('MsmCkApi', 'MsmLinalg', 'MsmIts'):
+        if module in ('MsmCkApi', 'MsmLinalg', 'MsmIts', 'MsmTimesApi'):
             return case['_run']()
         if module in ('MsmTimes', 'MdCompareApi', 'MdTimesApi', 'MdCoringApi', 'StateTrajAcc', 'LumpedAcc', 'StateTrajEst', 'LumpedEst') or (module == 'MsmTests' and k != '_calc_times'):
             return case['_run']()
@@ -1156,6 +1216,9 @@ def real_one(module, case):
         rec2 = inputs.pop('_rec2', None)
         if rec2 is not None:
             inputs['oracle'] = {k_: rec2[k_] for k_ in ('choice', 'cummat', 'estimator') if k_ in rec2}
+        rec4 = inputs.pop('_rec4', None)
+        if rec4 is not None:
+            inputs['oracle'] = {k_: v_ for k_, v_ in rec4.items() if k_ != 'md_paths_args'}
         rec3 = inputs.pop('_rec3', None)
         if rec3 is not None:
             inputs['oracle'] = rec3
@@ -1333,7 +1396,7 @@ def same(case, real, gen):
             len(a_) == len(b_) and all(abs(Fraction(x) - Fraction(y)) <= Fraction(1, 10 ** 15) for x, y in zip(a_, b_)) for a_, b_ in zip(r[0], g[0]))
     if k.startswith('compare_discretization_'):
         return abs(Fraction(r) - Fraction(g)) <= Fraction(1, 10 ** 12)
-    if k == 'estimate_times_hist':
+    if k in ('estimate_times_hist', 'estimate_waiting_times_hist', 'estimate_transition_times_hist'):
         return r[1] == g[1] and len(r[0]) == len(g[0]) and all(abs(Fraction(x) - Fraction(y)) <= Fraction(1, 10 ** 15) for x, y in zip(r[0], g[0]))
     if k == 'equilibrium_population':
         return len(r) == len(g) and all(abs(Fraction(x) - Fraction(y)) <= Fraction(1, 10 ** 12) for x, y in zip(r, g))
